@@ -223,6 +223,8 @@ def run_group(pid, g, scratch, tier, repo, keep_dir=None, trace=False, only_prop
         flags += ["--object-bits", str(g.get("object_bits", 10))]
         tmo = g.get("timeout", {}).get(tier) if isinstance(g.get("timeout"), dict) else g.get("timeout")
         tmo = tmo or TIMEOUT[tier]
+        if os.environ.get("SSW_TIMEOUT"):
+            tmo = int(os.environ["SSW_TIMEOUT"])
         backends = g.get("backends", [[], ["--sat-solver", "cadical"]])
         out = None
         last_err = ""
@@ -438,9 +440,9 @@ def check(pid, tier, only=None, keep=False, jobs=None, repo=DEFAULT_REPO, quiet=
     known = load_known()
     # replay files of earlier runs of this property are stale
     rdir = os.path.join(VERIF, "replays")
-    if os.path.isdir(rdir) and write_evidence:
+    if os.path.isdir(rdir):
         for f in os.listdir(rdir):
-            if f.startswith(pid + "_"):
+            if f.startswith(pid + "_") and (not only or any(f.startswith("%s_%s_" % (pid, g)) for g in only)):
                 os.unlink(os.path.join(rdir, f))
     undec = []
     violations = []
@@ -516,14 +518,20 @@ def check(pid, tier, only=None, keep=False, jobs=None, repo=DEFAULT_REPO, quiet=
                 if npost < g.get("min_postconditions", 1):
                     undec.append((r["name"], "only %d postcondition obligations (expected >= %d)" % (npost, g.get("min_postconditions", 1))))
             failed = []
+            any_failure = any(o["status"] == "FAILURE" for o in real)
             for o in real:
                 if o["status"] == "SUCCESS":
                     continue
                 if o["status"] != "FAILURE":
-                    undec.append((r["name"], "obligation %s has status %s" % (o["name"], o["status"])))
+                    # cbmc reports UNKNOWN for obligations behind a failed one; only the failures are reported then
+                    if not any_failure:
+                        undec.append((r["name"], "obligation %s has status %s" % (o["name"], o["status"])))
                     continue
                 if o["class"] == "unwind" and (o["function"].startswith("__CPROVER_contracts") or "__CPROVER_contracts" in o["name"]):
                     undec.append((r["name"], "contract-library unwinding bound too small: " + o["name"]))
+                    continue
+                if o["function"].startswith("__CPROVER_contracts") and o["class"] != "frame":
+                    undec.append((r["name"], "assertion inside the contract library failed (specification/tool problem, not a property of the code): %s %s" % (o["name"], o["desc"])))
                     continue
                 if o["class"] == "unwind" and not g.get("unwind_is_obligation"):
                     undec.append((r["name"], "unwinding bound %s insufficient: %s" % (g.get("unwind", 12), o["name"])))
